@@ -427,7 +427,7 @@ func init() {
 }
 
 func (g *treeGen) revStack(depth int) Node {
-	n := Node{"t": "stk", "k": []string{"AND", "OR", "NOT", "LIST", "AND", "OR"}[g.rng.Intn(6)], "form": "native", "paren": g.rng.Intn(4) == 0, "fold": false,
+	n := Node{"t": "stk", "k": []string{"AND", "OR", "NOT", "LIST", "AND", "OR", "BASIC"}[g.rng.Intn(7)], "form": "native", "paren": g.rng.Intn(4) == 0, "fold": false,
 		"nspad": false, "lonce": false, "sym": []any{}, "delim": []any{}, "enc": []any{}, "neg": g.rng.Intn(4) == 0, "fwd": g.rng.Intn(3) == 0,
 		"mtx": g.rng.Intn(3) == 0, "cap": 0}
 	w := []int{0, 1, 1, 1, 2, 2, 3}[g.rng.Intn(7)]
